@@ -179,7 +179,7 @@ func soak(seed uint64, workers, nops int, size, maxw int64, mode int) string {
 	go func() { wg.Wait(); close(doneCh) }()
 	select {
 	case <-doneCh:
-	case <-time.After(15 * time.Second):
+	case <-time.After(60 * time.Second):
 		close(stop)
 		if cur, sz, q, ok := semaphore.VerifTrySnapshot(sem); ok {
 			return fmt.Sprintf("fail hang cur=%d size=%d queue=%v", cur, sz, q)
